@@ -15,7 +15,7 @@ CHECKS = {
  'C14': dict(
    technique='Coq proof (induction over the dimension: three-sweep LDL^T = elimination law-free; A x = b over R; dominance => positive pivots; bit-identical repeated solves) + exact-rational correspondence of the real solver',
    text='For every dimension: the in-place LDL^T sweeps equal the recursive elimination operation for operation (any arithmetic), the '
-        'elimination solves A x = b exactly when no pivot vanishes, strict dominance makes every pivot positive, and repeated solves '
+        'elimination solves A x = b exactly when no pivot vanishes, strict dominance AND symmetric positive definiteness each make every pivot positive (so A x = b for every SPD system, C14_spd_solve_correct), and repeated solves '
         'are identical; the cyclic Sherman-Morrison solve returns the solution of the cyclic system for every n >= 2 when the modified matrix factorises '
         'and 1 + v.z != 0 (C14_cyclic_solve_correct). PARTIAL: floating-point backward stability is measured by the exact-rational correspondence '
         '(residual of the real result evaluated exactly), not proved.',
